@@ -46,6 +46,7 @@ type Node struct {
 	madeReqInc      int
 	madeReqH        uint32
 	madeReqV        byte
+	txGen           uint64 // bumped by StopTxFlow when the application honours it: open transaction requests are forgotten
 	hidePool        bool // the verified pool reads empty (the notified transaction was evicted)
 	st              *Step
 	crashing        bool
@@ -578,7 +579,14 @@ func (n *Node) options() []func(*dbft.Config[Hash]) {
 			return nil
 		}),
 		dbft.WithRequestTx[Hash](n.cbRequestTx),
-		dbft.WithStopTxFlow[Hash](func() { n.out(Out{Kind: OStopTxFlow}) }),
+		dbft.WithStopTxFlow[Hash](func() {
+			n.out(Out{Kind: OStopTxFlow})
+			if sc.HonourStop {
+				// "the process no longer needs any transactions": an application that takes this
+				// at its word forgets the requests that are still open
+				n.txGen++
+			}
+		}),
 		dbft.WithVerifyBlock[Hash](func(b dbft.Block[Hash]) bool {
 			bb := b.(*Block)
 			ok := n.verifyTxs(bb.txs)
@@ -755,7 +763,7 @@ func (n *Node) cbRequestTx(hs ...Hash) {
 			}
 			d = s.sc.LatBase*(1+4*s.sc.SupplySlow) + s.tape.Range(n.stream(SApp), 0, 16)*s.sc.LatBase/2
 		}
-		s.after(d, &Event{Kind: EvTxSupply, Node: n.id, Inc: n.inc, Tx: tx})
+		s.after(d, &Event{Kind: EvTxSupply, Node: n.id, Inc: n.inc, Tx: tx, Gen: n.txGen})
 	}
 }
 
